@@ -671,6 +671,7 @@ func (e *FieldAccessExpr) execListAccess(idx int, left any) (any, error) {
 
 func (e *FieldReferenceExpr) Execute(kv KVPair, ctx *ExecuteCtx) (any, error) {
 	if ctx != nil {
+		ctx.BindRow(kv.Key)
 		cval, have := ctx.GetFieldResult(e.Name.Data)
 		if have {
 			ctx.UpdateHit()
